@@ -201,6 +201,19 @@ Theorem C05_notnull_default_wrapped :
   kept cs c = Some (EIfNull (rc_name c) (rc_defval c)) /\ ifnull_wrapped cs c = true.
 Proof. exact notnull_default_wrapped. Qed.
 
+(** 15. Table options decide what a value is (an ANY column keeps text verbatim only in a STRICT
+    table).  The only CREATE TABLE a ModifyTable plans is the one of the temporary table of the
+    rebuild, and it carries the columns and the option clause -- WITHOUT ROWID, STRICT -- of the
+    desired table ([newT] is a shallow copy of [modify.T]).  The tie compares this clause with the
+    SQL the Go planner prints in every run. *)
+Theorem C05_rebuild_keeps_options :
+  forall t m l b x,
+  seg (ModifyTable t m) = POk (l, b) -> In (SCreateTable x) l ->
+  td_name x = new_prefix ++ td_name t /\ td_cols x = td_cols t /\
+  td_strict x = td_strict t /\ td_without_rowid x = td_without_rowid t /\
+  table_options x = table_options t.
+Proof. exact rebuild_keeps_options. Qed.
+
 Section C05_faults.
 Variable conv : str -> str -> value -> value.
 Variable genv : str -> rcol -> row -> value.
@@ -310,6 +323,7 @@ Print Assumptions C05_schema_apply_f_none.
 Print Assumptions C05_opener_faults.
 Print Assumptions C05_set_off_fault_runs_nothing.
 Print Assumptions C05_commit_faults_unchanged.
+Print Assumptions C05_rebuild_keeps_options.
 Print Assumptions C05_values_identical_refuted.
 Print Assumptions C05_rows_preserved_except.
 Print Assumptions C05_others_untouched.
@@ -491,3 +505,12 @@ Proof.
     repeat (destruct Hf as [<-|Hf]; [eexists; vm_compute; split; reflexivity|]). contradiction.
   - eexists. vm_compute. repeat split.
 Qed.
+
+(** 15: a STRICT, WITHOUT ROWID table is rebuilt as one *)
+Example C05_rebuild_keeps_options_nonvacuous :
+  PlanChanges [ModifyTable (mkTdefO sT [col sId tyInt true] [] [] true true) [OtherChange 0]]
+  = POk [SPragmaFK false; SCreateTable (mkTdefO (new_prefix ++ sT) [col sId tyInt true] [] [] true true);
+         SCopyRows (new_prefix ++ sT) [sId] [ECol sId] sT; SDropTable sT; SRenameTable (new_prefix ++ sT) sT;
+         SPragmaFK true] /\
+  table_options (mkTdefO sT [] [] [] true true) = [OWithoutRowid; OStrict].
+Proof. split; reflexivity. Qed.
